@@ -7,6 +7,8 @@ from props.common import default_encode, default_decode
 
 PROP = 'C12'
 BIN = 'c12'
+# dense digit-count pass (run.dense_table): width-dependent estimates (digit counts, exponents) make every width interesting here
+DENSE = {'quick': {64: 128}, 'thorough': {8: 1024, 16: 512, 32: 256}}
 SIG = {'fmt': 'xdd'}
 encode = default_encode(SIG)
 decode = default_decode(SIG)
@@ -186,3 +188,19 @@ REQUIRED = ['negative value', 'zero', 'width above natural length', 'width above
 
 def floors(st, tier):
     return ['class %r never observed' % c for c in REQUIRED if st['classes'].get(c, 0) == 0]
+
+
+def dense_requests(cfg, rng, n, st):
+    """dense digit-count pass: values with the maximal number of decimal / octal / binary / hex digits (and one fewer) through the plain spec,
+    the '#0width' spec and a few random specs of all eight traits"""
+    ns = len(SPECS)
+    plain = 0
+    full = next((i for i, s in enumerate(SPECS) if s['alt'] and s['zero'] and s['width'] and not s['plus'] and not s['align']), 1)
+    dcap = len(str(cfg.mask))
+    vals = [cfg.max, cfg.min if cfg.signed else cfg.max // 3, cfg.val((10 ** (dcap - 1)) & cfg.mask), cfg.val((10 ** (dcap - 1) - 1) & cfg.mask),
+            cfg.val(cfg.mask), cfg.val((8 ** ((cfg.bits - 1) // 3)) & cfg.mask), cfg.wrap(-(10 ** (len(str(cfg.max)) - 1)))]
+    for v in vals:
+        nl = natural_len(cfg, v, 0)
+        yield 'fmt', (v, plain, 0)
+        yield 'fmt', (v, full, nl + rng.choice((0, 1, 2, 5)))
+        yield 'fmt', (v, rng.randrange(ns), rng.choice((0, nl, nl + 3)))
